@@ -65,7 +65,7 @@ func NewBadFramingModifier() martian.RequestModifier {
 				// Check that the last, potentially comma-delimited, value is
 				// "chunked", else we have no way to determine when the request is
 				// finished.
-				if strings.TrimSpace(last[len(last)-1]) != "chunked" {
+				if !strings.EqualFold(strings.TrimSpace(last[len(last)-1]), "chunked") {
 					return fmt.Errorf(`bad request framing: "Transfer-Encoding" header is present, but does not end in "chunked"`)
 				}
 
